@@ -93,6 +93,19 @@ Fixpoint crash_states (f:fs) (ops:list fop) : list fs :=
           | _ => [] end)
          ++ crash_states (run_op f o) r
        end.
+(* an output-size limit L (RLIMIT_FSIZE, a full disk): the first append that would grow its file beyond L writes the
+   part that fits and fails, and Edit returns at that point *)
+Definition fsize (p:path) (f:fs) : nat := match fs_get p f with Some b => List.length b | None => 0 end.
+Fixpoint run_limited (L:nat) (f:fs) (ops:list fop) : fs :=
+  match ops with
+  | [] => f
+  | o :: r =>
+    match o with
+    | OAppend p b => if Nat.eqb (List.length b) 0 || Nat.leb (fsize p f + List.length b) L then run_limited L (run_op f o) r
+                     else run_op f (OAppend p (firstn (L - fsize p f) b))
+    | _ => run_limited L (run_op f o) r
+    end
+  end.
 Definition header_edit_ops (archive:path) (hdr:bytes) : list fop := [OWriteAt0 archive hdr].
 Definition metadata_edit_ops (archive tmp:path) (hdr root meta leaves tiles:bytes) : list fop :=
   [OCreate tmp; OAppend tmp hdr; OAppend tmp root; OAppend tmp meta; OAppend tmp leaves; OAppend tmp tiles; ORename tmp archive].
